@@ -453,10 +453,23 @@ func (fc *fieldCov) notCovered(fn *ssa.Function, guards map[string][]string) ([]
 		gf := map[int]bool{}
 		for _, g := range guards[st.Field(i).Name()] {
 			if j, ok := idx[g]; ok {
-				gf[j] = true
+				// a guard field the reset method itself may store to says nothing about the
+				// state the object was used in: the guarded reset then does not count
+				if !mayStoreField(fn, fn.Params[0], j, 0) {
+					gf[j] = true
+				}
 			}
 		}
-		if !fc.coveredOnAllPaths(fn, ws, al, i, st, gf) {
+		// a field whose reset is accepted only under a guard is not reset when the method (or a
+		// callee on the same object) stores to that guard itself — also when the guarded reset
+		// sits in a callee whose summary already counted it
+		guardBroken := false
+		for _, g := range guards[st.Field(i).Name()] {
+			if j, ok := idx[g]; ok && mayStoreField(fn, fn.Params[0], j, 0) {
+				guardBroken = true
+			}
+		}
+		if guardBroken || !fc.coveredOnAllPaths(fn, ws, al, i, st, gf) {
 			miss = append(miss, st.Field(i).Name())
 		}
 	}
@@ -489,4 +502,39 @@ func (fc *fieldCov) coveredFrom(fn *ssa.Function, ws map[*ssa.BasicBlock]*blockW
 		work = append(work, b.Succs...)
 	}
 	return true
+}
+
+// mayStoreField: fn (or a callee that receives the same object, two levels) contains a store to
+// field j of the object root points to.
+func mayStoreField(fn *ssa.Function, root ssa.Value, j int, depth int) bool {
+	if fn == nil || fn.Blocks == nil {
+		return false
+	}
+	al := aliasesOf(fn, root)
+	for _, b := range fn.Blocks {
+		for _, ins := range b.Instrs {
+			switch x := ins.(type) {
+			case *ssa.Store:
+				if i, ok := fieldAddrOf(x.Addr, al); ok && i == j {
+					return true
+				}
+			case ssa.CallInstruction:
+				if depth >= 2 {
+					continue
+				}
+				callee := x.Common().StaticCallee()
+				if callee == nil || callee.Blocks == nil {
+					continue
+				}
+				for ai, a := range x.Common().Args {
+					if al[a] && ai < len(callee.Params) {
+						if mayStoreField(callee, callee.Params[ai], j, depth+1) {
+							return true
+						}
+					}
+				}
+			}
+		}
+	}
+	return false
 }
